@@ -405,24 +405,21 @@ func rulesC06(c *Ctx) {
 				c.Check(ok, key, w.f, w.n, "handle adopts per-request metadata as session parameters only when not yet initialized and the request uses the new protocol (guards: %s)", atomsString(ogd))
 				// ... and only after the request passed the version gate: a rejected request must not change the phase
 				supp := c.Obj(pM, "supportedProtocolVersions")
-				okV := hasAtom(ogd, func(a Atom) bool {
-					// !(usesNewProtocol && !Contains(supported, v)) holds: the -32022 branch was not taken
-					if a.Val {
-						return false
+				// under the conditions of the -32022 refusal (the request uses the new protocol and names a version that is
+				// not in the supported table) the adoption is unreachable: decided by evaluating the branch conditions under
+				// those assumptions, so one `if a && !b` and two nested ifs are the same gate
+				okV := false
+				for _, r := range root.Returns() {
+					rv := og.VertexOf(r)
+					gs := og.GuardsAt(rv)
+					if !hasAtom(gs, func(a Atom) bool {
+						ce, isC := ast.Unparen(a.E).(*ast.CallExpr)
+						return !a.Val && isC && len(ce.Args) == 2 && root.ObjOf(ce.Args[0]) == supp
+					}) {
+						continue
 					}
-					b, isB := a.E.(*ast.BinaryExpr)
-					if !isB || b.Op != token.LAND {
-						return false
-					}
-					found := false
-					ast.Inspect(b, func(n ast.Node) bool {
-						if ce, isC := n.(*ast.CallExpr); isC && len(ce.Args) == 2 && root.ObjOf(ce.Args[0]) == supp {
-							found = true
-						}
-						return true
-					})
-					return found
-				})
+					okV = !og.ReachAssuming(gs)[og.VertexOf(litParentCall(w.f))]
+				}
 				c.Check(okV, key+":after-version-gate", w.f, w.n, "the session adopts the request's metadata only after the unsupported-version test has passed (guards: %s); otherwise a request answered -32022 still flips the session to initialized", atomsString(ogd))
 			case "(*Server).discover":
 				og := root.Graph()
